@@ -49,8 +49,9 @@ static char *long_tokens[8];
 static int n_long;
 
 /* ---- initial configurations ---------------------------------------------------------------------------- */
-static const char *buf_names[] = {"empty", "ascii5", "lines30", "utf8", "long300"};
-static char *buf_text[5];
+static const char *buf_names[] = {"empty", "ascii5", "lines30", "utf8", "long300", "longword", "longutf8word", "longpath"};
+#define NBUFS 8
+static char *buf_text[NBUFS];
 static const struct { int rows, cols; } wins[] = {{24, 80}, {2, 2}, {3, 10}, {8, 40}};
 static const char *opt_sets[] = {"", "se noai|se noic|se nohl|se order=2|se td=-2|se lim=5|se hist=5|se hll"};
 
@@ -76,6 +77,23 @@ static void make_buffers(void)
 	sbuf_chr(sb, '\n');
 	sbuf_str(sb, "short\n");
 	buf_text[4] = sbuf_done(sb);
+	/* single words, multi-byte words and path names longer than the fixed-size scratch buffers
+	 * (each on the first line, where the cursor starts) */
+	sb = sbuf_make();
+	for (i = 0; i < 300; i++)
+		sbuf_chr(sb, 'w');
+	sbuf_str(sb, "\nshort word\n");
+	buf_text[5] = sbuf_done(sb);
+	sb = sbuf_make();
+	for (i = 0; i < 130; i++)
+		sbuf_str(sb, "\xc3\xa9");
+	sbuf_str(sb, " x\nshort word\n");
+	buf_text[6] = sbuf_done(sb);
+	sb = sbuf_make();
+	for (i = 0; i < 140; i++)
+		sbuf_str(sb, "/p");
+	sbuf_str(sb, ".c:12:3\nshort word\n");
+	buf_text[7] = sbuf_done(sb);
 }
 
 static void make_long_tokens(int exmode)
@@ -173,13 +191,7 @@ static int nx_leaf_bytes(char *buf, int max)
 			strcat(buf, ".\n");
 		strcat(buf, "q!\n");
 	} else {
-		/* in vi mode a/i/c inside :g read one text block per execution from the terminal; each ESC
-		 * ends one of them (and is a no-op in normal mode), so that the quit command is reached */
-		int i;
-		buf[0] = '\0';
-		for (i = 0; i < 40; i++)
-			strcat(buf, ESC);
-		strcat(buf, ":\x05q!\n");
+		strcpy(buf, ESC ESC ESC ":\x05q!\n");
 	}
 	return strlen(buf);
 }
@@ -391,6 +403,9 @@ int main(int argc, char **argv)
 	 * timing; that race is outside a deterministic exploration (DESIGN.md section 8) */
 	signal(SIGPIPE, SIG_IGN);
 	nx_hist_name = hist_name;
+	/* in vi mode a/i/c inside :g read one text block per execution from the terminal and may swallow the
+	 * quit sequence as text: it is offered again, up to once per line of the largest buffer */
+	nx_leaf_retries = 40;
 	nx_horizon = atoi(nv_arg(argc, argv, "horizon", "20"));
 	make_buffers();
 	if (replay_cfg) {
@@ -406,17 +421,34 @@ int main(int argc, char **argv)
 		explore_config(0, 0, 1, 0, 2, 2);
 		explore_config(1, 1, 0, 0, 2, 1);
 		explore_config(1, 0, 0, 1, 2, 2);
+		/* every single token from every buffer x window x option set (one configuration per shard) */
+		if (nx_replay_n < 0) {
+			int ci = 0;
+			nx_shard_div = 1;
+			nx_shard_mod = 0;
+			for (b = 0; b < NBUFS; b++)
+				for (w = 0; w < 4; w++)
+					for (o = 0; o < 2; o++)
+						if (ci++ % nv_nshards == nv_shard)
+							explore_config(0, b, w, o, 1, 1);
+			for (b = 0; b < NBUFS; b++)
+				for (o = 0; o < 2; o++)
+					if (ci++ % nv_nshards == nv_shard)
+						explore_config(1, b, 0, o, 1, 1);
+			nx_shard_div = nv_nshards;
+			nx_shard_mod = nv_shard;
+		}
 		deviation_streams(0);
 	} else {
 		/* thorough: depth 2 on every buffer x window x option set, depth 3 on the core alphabet, deviations k=2 */
-		for (b = 0; b < 5; b++)
+		for (b = 0; b < NBUFS; b++)
 			for (w = 0; w < 4; w++)
 				for (o = 0; o < 2; o++) {
 					if (nv_expired_now())
 						break;
 					explore_config(0, b, w, o, 2, b == 1 && w == 0 ? 1 : 2);
 				}
-		for (b = 0; b < 5; b++)
+		for (b = 0; b < NBUFS; b++)
 			for (o = 0; o < 2; o++)
 				if (!nv_expired_now())
 					explore_config(1, b, 0, o, 2, 1);
